@@ -100,6 +100,68 @@ class Source(sm.SM):
             self.attribute(out, prop, name, rec, fail, [{"trace": tf, "line": m["line"], "pre": m.get("pre")}], "trace")
 
 
+def size_domain(out, prop, tier, seed):
+    """C14 (and the placeholder clause of C13) over the whole stated domain: every cookie length 0..1024 x every fill
+    level x both NTS versions; TLC checks the invariant on the model and prints the expected request, the harness
+    builds a real source holding such cookies and compares the real encoder's output."""
+    s = Source()
+    for mode in ["NtsV4", "NtsV5"]:
+        rows = []
+
+        def sink(tag, obj):
+            rows.append(obj)
+        res = vf.run_tlc("MC_SourceSize", "MC_SourceSize_%s.cfg" % mode, workers=8, timeout=900, tags=("SIZE",), line_sink=sink, coverage=False)
+        if res.violated:
+            raise vf.ToolError("size model violates %s at design level:\n%s" % (res.violated, res.error_trace[:2000]))
+        out.add("states", res.distinct)
+        out.add("transitions", res.generated)
+        if tier == "quick":   # every 4th length plus everything near the boundaries of the margin computation
+            rows = [r for r in rows if r["clen"] % 4 == seed % 4 or r["clen"] < 40 or 88 <= r["clen"] <= 108 or 340 <= r["clen"] <= 380 or 700 <= r["clen"] <= 740 or r["clen"] > 1000]
+        wd = vf.workdir("Source_size")
+        wf = os.path.join(wd, "walks_%s_%s.ndjson" % (mode, prop))
+        rf = os.path.join(wd, "results_%s_%s.ndjson" % (mode, prop))
+        walks = [{"id": n, "init_stash": [r["clen"]] * r["fill"],
+                  "walk": [{"act": {"t": "Timer", "desired": 4}, "post": r["post"], "out": r["out"]}]} for n, r in enumerate(rows)]
+        vf.write_ndjson(wf, walks)
+        cfg = dict(Mode=mode, MinPoll=4, MaxPoll=10, LocalStratum=16, SrcLocal=False, init_stash=[])
+        vf.run_harness(s.crate, s.test, {"mode": "replay", "cfg": cfg, "input": wf, "output": rf, "seed": seed})
+        results = vf.read_ndjson(rf)
+        cones = {"C14": ["panic", "out.len", "out.actions"], "C13": ["out.cookie", "out.placeholders", "stash"]}
+        for r in results:
+            if r["fail"] is not None:
+                w = walks[r["id"]]
+                rec = {"act": {"t": "Timer"}, "cones": cones, "post": w["walk"][0]["post"], "out": w["walk"][0]["out"]}
+                s.attribute(out, prop, "%s:clen=%d:fill=%d" % (mode, rows[r["id"]]["clen"], rows[r["id"]]["fill"]), rec, r["fail"],
+                            [{"init_stash": w["init_stash"]}, w["walk"][0]["act"]], "replay")
+        out.add("size_cases_replayed", len(results))
+        out.sample({"size_case": {"mode": mode, "clen": rows[-1]["clen"], "fill": rows[-1]["fill"], "expected": rows[-1]["out"]}})
+
+
+class Stash(sm.SM):
+    """spec/Stash.tla: the cookie jar with explicit identities, replayed on the real CookieStash."""
+    module = "Stash"
+    mc_module = "Stash"
+    crate = "ntp_proto"
+    test = "cookiestash::verif_hook::verif_stash"
+
+    def configs(self, prop, tier):
+        return ["main"]
+
+    def harness_cfg(self, cfgname, init_state):
+        return {}
+
+    def act_sig(self, a):
+        return a["t"]
+
+
+def reach_lemma(out):
+    res = vf.run_tlc("Reach", "Reach.cfg", workers=2, timeout=300, coverage=False)
+    if res.violated:
+        raise vf.ToolError("Reach refinement lemma fails: %s" % res.violated)
+    out.add("states", res.distinct)
+    out.add("transitions", res.generated)
+
+
 def run(prop, tier, seed):
     out = vf.Outcome(prop, tier, seed, "model_checking")
     out.coverage["rule"] = ("every transition of the bounded Source model whose cone for this property is non-empty is covered by a "
@@ -111,6 +173,12 @@ def run(prop, tier, seed):
         s.model_and_replay(out, prop, tier, seed, cfg)
     for cfg in s.configs(prop, tier):
         s.trace_one(out, prop, tier, seed, cfg)
+    if prop in ("C14", "C13"):
+        size_domain(out, prop, tier, seed)
+    if prop == "C13":
+        Stash().model_and_replay(out, prop, tier, seed, "main", max_len=40)
+    if prop == "C11":
+        reach_lemma(out)
     return out
 
 
